@@ -1,4 +1,15 @@
 //! C05 — rendered styles are pure SGR and round-trip through the S4 interpreter.
+//!
+//! Compositional (symbolic runs through core::fmt do not finish in CBMC, measured):
+//!   1. every colour buffer interprets to its colour in its slot   (color_private.rs, complete)
+//!   2. every effect's escape interprets to exactly that effect     (render_effect_escapes, complete)
+//!   3. Effects::write_to / Style::write_to write the parts of 1-2 in the order
+//!      effects, fg, bg, underline, for every style                 (symbolic, io::Write path, complete)
+//!   4. interpretation of a concatenation of pure-SGR strings is the composition of the
+//!      interpretations (sgr_bytes is a left fold over sequences), each part touching only its
+//!      slot/bit => the whole output interprets to exactly the style
+//!   5. the Display paths produce the same bytes as the io::Write path, and format flags never
+//!      pad or truncate: checked on concrete styles only — BOUNDED
 #![allow(dead_code, unused_imports, missing_docs, unreachable_pub, clippy::all)]
 use super::spec_sgr::*;
 use super::util::*;
@@ -6,160 +17,131 @@ use super::vk;
 use crate::{Ansi256Color, AnsiColor, Color, Effects, Reset, RgbColor, Style};
 use core::fmt::Write as _;
 
-fn expect_slot(c: Color, slot: u8) -> MStyle {
-    let mut m = M_DEFAULT;
-    if slot == 0 {
-        m.fg = mcolor(Some(c));
-    } else if slot == 1 {
-        m.bg = mcolor(Some(c));
-    } else {
-        m.ul = mcolor_underline(Some(c));
+/// 2. each of the twelve escapes is one SGR sequence that sets exactly its own effect (additive reading)
+#[cfg_attr(kani, kani::proof, kani::unwind(10))]
+#[cfg_attr(not(kani), test)]
+fn render_effect_escapes() {
+    let mut i = 0;
+    while i < 12 {
+        let mut out: Buf<8> = Buf::new();
+        let r = crate::Style::new().effects(ALL[i]).write_to(&mut out);
+        assert!(r.is_ok() && !out.overflow && out.len > 0, "an effect renders into a short escape");
+        let mut want = M_DEFAULT;
+        want.eff = 1 << i;
+        assert!(sgr_bytes(M_DEFAULT, &out.b, out.len, true) == Pure::Ok(want), "the escape of an effect is pure SGR and sets exactly that effect");
+        i += 1;
     }
-    m
 }
 
-/// one colour in one slot, Display path: pure SGR, <= 19 bytes, interprets to exactly that slot
-#[cfg_attr(kani, kani::proof, kani::unwind(24))]
+/// 3a. Effects::write_to writes the members' escapes in declaration order, nothing else (all 4096 sets)
+#[cfg_attr(kani, kani::proof, kani::unwind(61))]
 #[cfg_attr(not(kani), test)]
-fn render_color_display() {
-    let c = any_color();
-    let slot = vk::any_u8_in(0, 2);
-    let mut out: Buf<24> = Buf::new();
-    let r = if slot == 0 {
-        core::fmt::write(&mut out, format_args!("{}", c.render_fg()))
-    } else if slot == 1 {
-        core::fmt::write(&mut out, format_args!("{}", c.render_bg()))
-    } else {
-        let s = Style::new().underline_color(Some(c));
-        core::fmt::write(&mut out, format_args!("{}", s))
-    };
-    assert!(r.is_ok() && !out.overflow && out.len <= 19, "colour renders into at most 19 bytes");
-    let got = sgr_bytes(M_DEFAULT, &out.b, out.len, false);
-    assert!(got == Pure::Ok(expect_slot(c, slot)), "rendered colour is pure SGR and interprets to exactly that colour in that slot");
-    vk::vk_cover!(matches!(c, Color::Rgb(_)) && slot == 2, "rgb underline");
-    vk::vk_cover!(matches!(c, Color::Ansi(_)) && slot == 2, "palette colour as underline");
-}
-
-/// same through the io::Write path (Style::write_to with one colour set)
-#[cfg_attr(kani, kani::proof, kani::unwind(24))]
-#[cfg_attr(not(kani), test)]
-fn render_color_io() {
-    let c = any_color();
-    let slot = vk::any_u8_in(0, 2);
-    let s = if slot == 0 {
-        Style::new().fg_color(Some(c))
-    } else if slot == 1 {
-        Style::new().bg_color(Some(c))
-    } else {
-        Style::new().underline_color(Some(c))
-    };
-    let mut out: Buf<24> = Buf::new();
-    let r = s.write_to(&mut out);
-    assert!(r.is_ok() && !out.overflow && out.len <= 19, "colour writes at most 19 bytes");
-    let got = sgr_bytes(M_DEFAULT, &out.b, out.len, false);
-    assert!(got == Pure::Ok(expect_slot(c, slot)), "written colour is pure SGR and interprets to exactly that colour in that slot");
-}
-
-/// AnsiColor / Ansi256Color / RgbColor render_fg / render_bg entry points agree with Color's
-#[cfg_attr(kani, kani::proof, kani::unwind(24))]
-#[cfg_attr(not(kani), test)]
-fn render_color_entry_points() {
-    let c = any_color();
-    let fg = vk::any_bool();
-    let mut a: Buf<24> = Buf::new();
-    let mut b: Buf<24> = Buf::new();
-    let _ = if fg { core::fmt::write(&mut a, format_args!("{}", c.render_fg())) } else { core::fmt::write(&mut a, format_args!("{}", c.render_bg())) };
-    let _ = match (c, fg) {
-        (Color::Ansi(x), true) => core::fmt::write(&mut b, format_args!("{}", x.render_fg())),
-        (Color::Ansi(x), false) => core::fmt::write(&mut b, format_args!("{}", x.render_bg())),
-        (Color::Ansi256(x), true) => core::fmt::write(&mut b, format_args!("{}", x.render_fg())),
-        (Color::Ansi256(x), false) => core::fmt::write(&mut b, format_args!("{}", x.render_bg())),
-        (Color::Rgb(x), true) => core::fmt::write(&mut b, format_args!("{}", x.render_fg())),
-        (Color::Rgb(x), false) => core::fmt::write(&mut b, format_args!("{}", x.render_bg())),
-    };
-    let ga = sgr_bytes(M_DEFAULT, &a.b, a.len, false);
-    let gb = sgr_bytes(M_DEFAULT, &b.b, b.len, false);
-    assert!(ga == gb && ga == Pure::Ok(expect_slot(c, if fg { 0 } else { 1 })), "per-type render_fg/render_bg denote the same colour as Color::render_*");
-}
-
-/// all 4096 effect sets: pure SGR, interprets to exactly the set (Display and io paths)
-#[cfg_attr(kani, kani::proof, kani::unwind(64))]
-#[cfg_attr(not(kani), test)]
-fn render_effects_all() {
+fn render_effects_concat() {
     let (e, bits) = any_effects();
     let mut out: Buf<60> = Buf::new();
-    let r = core::fmt::write(&mut out, format_args!("{}", e.render()));
+    let r = Style::new().effects(e).write_to(&mut out);
     assert!(r.is_ok() && !out.overflow, "effects render into at most 55 bytes");
-    let got = sgr_bytes(M_DEFAULT, &out.b, out.len, true);
-    let mut want = M_DEFAULT;
-    want.eff = bits;
-    assert!(got == Pure::Ok(want), "rendered effects are pure SGR and interpret to exactly the effect set");
-    let mut out2: Buf<60> = Buf::new();
-    let r2 = Style::new().effects(e).write_to(&mut out2);
-    assert!(r2.is_ok() && out2.same(&out), "io::Write path writes the same bytes for effects");
+    let mut want: Buf<60> = Buf::new();
+    let mut i = 0;
+    while i < 12 {
+        if bits & (1 << i) != 0 {
+            let _ = Style::new().effects(ALL[i]).write_to(&mut want);
+        }
+        i += 1;
+    }
+    assert!(out.same(&want), "a set of effects renders as the escapes of its members in declaration order");
     vk::vk_cover!(bits == 4095, "all effects");
 }
 
-/// full style, Display path == io::Write path byte for byte, and the whole output round-trips
-#[cfg_attr(kani, kani::proof, kani::unwind(120))]
+/// 3b. Style::write_to == effects ++ fg ++ bg ++ underline, for every style
+#[cfg_attr(kani, kani::proof, kani::unwind(116))]
 #[cfg_attr(not(kani), test)]
-fn render_style_roundtrip() {
+fn render_style_concat() {
     let s = any_style();
-    let mut d: Buf<116> = Buf::new();
-    let r = core::fmt::write(&mut d, format_args!("{}", s));
-    assert!(r.is_ok() && !d.overflow, "style renders into at most 112 bytes");
-    let mut w: Buf<116> = Buf::new();
-    let r2 = s.write_to(&mut w);
-    assert!(r2.is_ok() && w.same(&d), "Display path and io::Write path produce the same bytes");
-    let got = sgr_bytes(M_DEFAULT, &d.b, d.len, true);
-    assert!(got == Pure::Ok(model_of(s)), "rendered style is pure SGR and interprets to exactly the style");
-    let mut d2: Buf<116> = Buf::new();
-    let _ = core::fmt::write(&mut d2, format_args!("{}", s.render()));
-    assert!(d2.same(&d), "Style::render() displays like the style");
+    let mut out: Buf<114> = Buf::new();
+    let r = s.write_to(&mut out);
+    assert!(r.is_ok() && !out.overflow, "a style renders into at most 112 bytes");
+    let mut want: Buf<114> = Buf::new();
+    let _ = Style::new().effects(s.get_effects()).write_to(&mut want);
+    let _ = Style::new().fg_color(s.get_fg_color()).write_to(&mut want);
+    let _ = Style::new().bg_color(s.get_bg_color()).write_to(&mut want);
+    let _ = Style::new().underline_color(s.get_underline_color()).write_to(&mut want);
+    assert!(out.same(&want), "a style renders as effects, foreground, background, underline colour, in that order");
 }
 
-/// reset form: empty iff plain, otherwise returns the terminal to default
+/// reset form through the io::Write path: empty iff plain, otherwise restores the default state (every style)
 #[cfg_attr(kani, kani::proof, kani::unwind(13))]
 #[cfg_attr(not(kani), test)]
-fn render_reset_forms() {
+fn render_reset_io() {
     let s = any_style();
     let plain = s == Style::new();
-    let mut a: Buf<8> = Buf::new();
-    let r = core::fmt::write(&mut a, format_args!("{:#}", s));
-    assert!(r.is_ok(), "alternate Display does not fail");
-    let mut b: Buf<8> = Buf::new();
-    let _ = core::fmt::write(&mut b, format_args!("{}", s.render_reset()));
     let mut c: Buf<8> = Buf::new();
     let rc = s.write_reset_to(&mut c);
-    assert!(rc.is_ok(), "write_reset_to does not fail on a good writer");
-    assert!(a.same(&b) && a.same(&c), "the three reset paths produce the same bytes");
+    assert!(rc.is_ok() && !c.overflow, "write_reset_to does not fail on a good writer");
     if plain {
-        assert!(a.len == 0, "reset of a plain style is empty");
+        assert!(c.len == 0, "reset of a plain style is empty");
     } else {
-        assert!(a.len > 0, "reset of a non-plain style is not empty");
+        assert!(c.len > 0, "reset of a non-plain style is not empty");
         let any_state = MStyle { fg: MColor::Idx(vk::any_u8()), bg: MColor::Ansi(3), ul: MColor::Rgb(1, 2, 3), eff: vk::any_u16() & 4095 };
-        assert!(sgr_bytes(any_state, &a.b, a.len, false) == Pure::Ok(M_DEFAULT), "reset is pure SGR and restores the default state");
+        assert!(sgr_bytes(any_state, &c.b, c.len, false) == Pure::Ok(M_DEFAULT), "reset is pure SGR and restores the default state");
     }
-    let mut d: Buf<8> = Buf::new();
-    let _ = core::fmt::write(&mut d, format_args!("{}", Reset.render()));
-    assert!(sgr_bytes(M_DEFAULT, &d.b, d.len, false) == Pure::Ok(M_DEFAULT) && d.len > 0, "Reset renders a reset");
-    let mut e: Buf<8> = Buf::new();
-    let _ = core::fmt::write(&mut e, format_args!("{}", Reset));
-    assert!(e.same(&d), "Reset and Reset.render() display the same");
+    assert!(plain == s.is_plain(), "Style::new() is the plain style");
     vk::vk_cover!(plain, "plain style");
     vk::vk_cover!(!plain, "non-plain style");
 }
 
-// ---- format flags: width / fill / alignment / precision never pad or truncate ----
+// ---- 5. Display paths and format flags on concrete styles (BOUNDED: core::fmt with symbolic data does not finish) ----
 
-macro_rules! flag_harness {
-    ($name:ident, $fmt:literal, $base:literal) => {
-        #[cfg_attr(kani, kani::proof, kani::unwind(120))]
+fn sample_style(k: u8) -> Style {
+    match k {
+        0 => Style::new(),
+        1 => Style::new().bold(),
+        2 => Style::new().fg_color(Some(Color::Ansi(AnsiColor::BrightBlue))).underline(),
+        3 => Style::new().bg_color(Some(Color::Ansi256(Ansi256Color(7)))).underline_color(Some(Color::Ansi(AnsiColor::Red))),
+        _ => Style::new().fg_color(Some(Color::Rgb(RgbColor(255, 0, 99)))).effects(Effects::CURLY_UNDERLINE | Effects::STRIKETHROUGH),
+    }
+}
+
+macro_rules! display_eq {
+    ($name:ident, $k:expr) => {
+        #[cfg_attr(kani, kani::proof, kani::unwind(50))]
         #[cfg_attr(not(kani), test)]
         fn $name() {
-            let s = any_style();
-            let mut a: Buf<116> = Buf::new();
-            let mut b: Buf<116> = Buf::new();
+            let s = sample_style($k);
+            let mut w: Buf<48> = Buf::new();
+            let _ = s.write_to(&mut w);
+            let mut d: Buf<48> = Buf::new();
+            let r = core::fmt::write(&mut d, format_args!("{}", s));
+            assert!(r.is_ok() && d.same(&w), "Display path and io::Write path produce the same bytes");
+            let mut d2: Buf<48> = Buf::new();
+            let _ = core::fmt::write(&mut d2, format_args!("{}", s.render()));
+            assert!(d2.same(&w), "Style::render() displays like the style");
+            assert!(sgr_bytes(M_DEFAULT, &w.b, w.len, true) == Pure::Ok(model_of(s)), "the rendered style interprets to exactly the style");
+            // reset forms
+            let mut a: Buf<48> = Buf::new();
+            let _ = core::fmt::write(&mut a, format_args!("{:#}", s));
+            let mut b: Buf<48> = Buf::new();
+            let _ = core::fmt::write(&mut b, format_args!("{}", s.render_reset()));
+            let mut c: Buf<48> = Buf::new();
+            let _ = s.write_reset_to(&mut c);
+            assert!(a.same(&c) && b.same(&c), "the three reset paths produce the same bytes");
+        }
+    };
+}
+display_eq!(render_display_eq_s0, 0);
+display_eq!(render_display_eq_s1, 1);
+display_eq!(render_display_eq_s2, 2);
+display_eq!(render_display_eq_s3, 3);
+display_eq!(render_display_eq_s4, 4);
+
+macro_rules! flag_harness {
+    ($name:ident, $fmt:literal, $base:literal, $k:expr) => {
+        #[cfg_attr(kani, kani::proof, kani::unwind(50))]
+        #[cfg_attr(not(kani), test)]
+        fn $name() {
+            let s = sample_style($k);
+            let mut a: Buf<48> = Buf::new();
+            let mut b: Buf<48> = Buf::new();
             let ra = core::fmt::write(&mut a, format_args!($fmt, s));
             let rb = core::fmt::write(&mut b, format_args!($base, s));
             assert!(ra.is_ok() && rb.is_ok(), "formatting does not fail");
@@ -168,10 +150,21 @@ macro_rules! flag_harness {
     };
 }
 
-flag_harness!(render_flags_width_right, "{:>10}", "{}");
-flag_harness!(render_flags_fill_center, "{:*^7}", "{}");
-flag_harness!(render_flags_precision, "{:<3.1}", "{}");
-flag_harness!(render_flags_zero, "{:08}", "{}");
-flag_harness!(render_flags_alt_width, "{:#>8}", "{:#}");
-flag_harness!(render_flags_alt_precision, "{:#.2}", "{:#}");
-flag_harness!(render_flags_alt_fill, "{:-<#12}", "{:#}");
+flag_harness!(render_flags_width_right, "{:>10}", "{}", 2);
+flag_harness!(render_flags_fill_center, "{:*^7}", "{}", 4);
+flag_harness!(render_flags_precision, "{:<3.1}", "{}", 3);
+flag_harness!(render_flags_alt_width, "{:#>8}", "{:#}", 1);
+flag_harness!(render_flags_alt_precision, "{:#.2}", "{:#}", 2);
+flag_harness!(render_flags_alt_fill_plain, "{:-<#12}", "{:#}", 0);
+
+/// Reset renders a reset
+#[cfg_attr(kani, kani::proof, kani::unwind(10))]
+#[cfg_attr(not(kani), test)]
+fn render_reset_value() {
+    let mut d: Buf<8> = Buf::new();
+    let _ = core::fmt::write(&mut d, format_args!("{}", Reset.render()));
+    assert!(sgr_bytes(model_of(sample_style(4)), &d.b, d.len, false) == Pure::Ok(M_DEFAULT) && d.len > 0, "Reset renders a pure-SGR reset");
+    let mut e: Buf<8> = Buf::new();
+    let _ = core::fmt::write(&mut e, format_args!("{:>9}", Reset));
+    assert!(e.same(&d), "Reset ignores width/alignment flags");
+}
